@@ -28,6 +28,7 @@ from tensordict.utils import (
     _shape,
     _zip_strict,
     DeviceType,
+    is_non_tensor,
     lazy_legacy,
     set_lazy_legacy,
 )
@@ -294,6 +295,24 @@ def _permute(td: T, dims: Sequence[int]) -> T:
     return td.permute(*dims)
 
 
+def _same_non_tensor(items) -> bool:
+    # True if all items are NonTensorData carrying one and the same value
+    from tensordict.tensorclass import NonTensorData
+
+    if not all(isinstance(item, NonTensorData) for item in items):
+        return False
+    first = items[0].data
+    for item in items[1:]:
+        if item.data is first:
+            continue
+        try:
+            if not bool(item.data == first):
+                return False
+        except Exception:
+            return False
+    return True
+
+
 @implements_for_td(torch.cat)
 def _cat(
     list_of_tensordicts: Sequence[T],
@@ -322,6 +341,18 @@ def _cat(
         out = {}
         for key in keys:
             items = [td._get_str(key, NO_DEFAULT) for td in list_of_tensordicts]
+            if all(is_non_tensor(item) for item in items) and not _same_non_tensor(
+                items
+            ):
+                # non-tensor data that differ across the operands (or stacks of them): the values
+                # of the operands side by side along dim, one per position as for stack
+                from tensordict.tensorclass import NonTensorStack
+
+                out[key] = NonTensorStack(
+                    *[piece for item in items for piece in item.unbind(dim)],
+                    stack_dim=dim,
+                )
+                continue
             if not is_compiling():
                 with _ErrorInteceptor(
                     key, "Attempted to concatenate tensors on different devices at key"
